@@ -99,6 +99,27 @@ impl Rule {
         all_invalid_parameters.append(&mut invalid_scope_parameters);
 
         if all_invalid_parameters.is_empty() {
+            // a parameter can be bound and still not be replaceable (a map key bound to a
+            // value that is neither an integer nor a string): refuse the rule here rather
+            // than panic when it is converted
+            let mut rule = self.clone();
+            rule.apply_parameters();
+            let mut remaining = HashMap::new();
+            for term in rule
+                .head
+                .terms
+                .iter()
+                .chain(rule.body.iter().flat_map(|p| p.terms.iter()))
+            {
+                term.extract_parameters(&mut remaining);
+            }
+            for op in rule.expressions.iter().flat_map(|e| e.ops.iter()) {
+                op.collect_parameters(&mut remaining);
+            }
+            all_invalid_parameters.extend(remaining.into_keys());
+        }
+
+        if all_invalid_parameters.is_empty() {
             Ok(())
         } else {
             Err(error::Token::Language(
@@ -258,28 +279,14 @@ impl Rule {
                 .head
                 .terms
                 .drain(..)
-                .map(|t| {
-                    if let Term::Parameter(name) = &t {
-                        if let Some(Some(term)) = parameters.get(name) {
-                            return term.clone();
-                        }
-                    }
-                    t
-                })
+                .map(|t| t.apply_parameters(&parameters))
                 .collect();
 
             for predicate in &mut self.body {
                 predicate.terms = predicate
                     .terms
                     .drain(..)
-                    .map(|t| {
-                        if let Term::Parameter(name) = &t {
-                            if let Some(Some(term)) = parameters.get(name) {
-                                return term.clone();
-                            }
-                        }
-                        t
-                    })
+                    .map(|t| t.apply_parameters(&parameters))
                     .collect();
             }
 
